@@ -140,7 +140,7 @@ func modifyUsingTemp(c1, c2, c3 *sqlcheck.Change) (from, to *schema.Table, _ boo
 		return drop.T, add.T, true
 	}
 	// In case no parser is attached, "RENAME T" will be presented as "DROP T" and "ADD T".
-	if len(c3.Changes) == 2 && isDropT(c3.Changes[0], prefixed) && isAddT(c3.Changes[1], name) {
+	if len(c3.Changes) == 2 && isDropT(c3.Changes[0], prefixed) && isAddTNamed(c3.Changes[1], name) {
 		add.T.Name = name
 		return drop.T, add.T, true
 	}
@@ -150,6 +150,11 @@ func modifyUsingTemp(c1, c2, c3 *sqlcheck.Change) (from, to *schema.Table, _ boo
 func isAddT(c schema.Change, prefix string) bool {
 	a, ok := c.(*schema.AddTable)
 	return ok && strings.HasPrefix(a.T.Name, prefix)
+}
+
+func isAddTNamed(c schema.Change, name string) bool {
+	a, ok := c.(*schema.AddTable)
+	return ok && a.T.Name == name
 }
 
 func isDropT(c schema.Change, name string) bool {
